@@ -1007,10 +1007,13 @@ void SAX2XMLReaderImpl::doctypeDecl(const   DTDElementDecl& elemDecl
 }
 
 
-void SAX2XMLReaderImpl::doctypePI(  const   XMLCh* const
-                            , const XMLCh* const)
+void SAX2XMLReaderImpl::doctypePI(  const   XMLCh* const    target
+                            , const XMLCh* const    data)
 {
-    // Unused by SAX DTDHandler interface at this time
+    // XML 1.0, 2.6: PIs must be passed through to the application,
+    // those of the DTD as well (between startDTD and endDTD)
+    if (fDocHandler)
+        fDocHandler->processingInstruction(target, data);
 }
 
 
